@@ -323,6 +323,23 @@ func parsePCR(i *astikit.BytesIterator) (cr *ClockReference, err error) {
 }
 
 func writePacket(w *astikit.BitsWriter, p *Packet, targetPacketSize int) (written int, retErr error) {
+	// Make sure the payload fits before anything is written
+	headerSize := 1 + mpegTsPacketHeaderSize
+	if p.Header.HasAdaptationField && p.AdaptationField != nil {
+		if p.AdaptationField.IsOneByteStuffing {
+			headerSize++
+		} else {
+			headerSize += 1 + int(calcPacketAdaptationFieldLength(p.AdaptationField))
+		}
+	}
+	if targetPacketSize-headerSize < len(p.Payload) {
+		return 0, fmt.Errorf(
+			"writePacket: can't write %d bytes of payload: only %d is available",
+			len(p.Payload),
+			targetPacketSize-headerSize,
+		)
+	}
+
 	if retErr = w.Write(uint8(syncByte)); retErr != nil {
 		return
 	}
